@@ -23,6 +23,14 @@ def main():
     b, e = "<!-- BEGIN AUTO theorems -->", "<!-- END AUTO theorems -->"
     i, j = s.index(b), s.index(e)
     s = s[:i + len(b)] + "\n" + block + "\n" + s[j:]
+    # seeded-change table
+    b2, e2 = "<!-- BEGIN AUTO seeded -->", "<!-- END AUTO seeded -->"
+    if b2 in s and e2 in s:
+        import subprocess
+        tbl = subprocess.run([sys.executable, os.path.join(ROOT, "tools", "seeded.py"), "table"], stdout=subprocess.PIPE,
+                             universal_newlines=True).stdout.strip()
+        i2, j2 = s.index(b2), s.index(e2)
+        s = s[:i2 + len(b2)] + "\n" + tbl + "\n" + s[j2:]
     open(path, "w").write(s)
     print("DESIGN.md: theorem table rewritten (%d properties)" % (len(rows) - 2))
 
